@@ -39,8 +39,8 @@ ASSUMPTIONS = [
     "member order inside a group is not part of the property (compared as multisets)",
     "NaN is used as a query value only (the package never stores NaN in a GroupedList)",
 ]
-BUDGET = {"quick": 6000, "thorough": 120000}
-DEADLINE_S = {"quick": 150, "thorough": 1500}
+BUDGET = {"quick": 6000, "thorough": 200000}
+DEADLINE_S = {"quick": 150, "thorough": 3300}
 
 
 def _gl():
